@@ -786,6 +786,31 @@ fn main() {
             }
         }
     }
+    // repeats phase: several lines, words repeated inside a line (an entry can gain more than one
+    // count per line), small max_size: every sequence of 2..=3 (thorough 4) lines from a small menu
+    {
+        let menu = ["a a a a", "b", "c", "b b b b b b", "a", "c c", "d", "b c"];
+        let mut corpora: Vec<Vec<String>> = vec![];
+        for len in 2..=run.pick(3, 4) {
+            for idx in tu_verif::enumerate::sequences(menu.len(), len).into_iter().filter(|s| s.len() == len) {
+                corpora.push(idx.iter().map(|i| menu[*i].to_string()).collect());
+            }
+        }
+        run.bounds.insert("repeats_phase".into(), json!(format!("{} corpora (every sequence of 2..={} lines from {menu:?}) x max_size {{1, 2}} x {{words, chars(1)}} x num_threads {{0, 1, 2}}", corpora.len(), run.pick(3, 4))));
+        let base = units + sus.len() + specs.len().div_ceil(64) + tu_verif::enumerate::threshold_lengths(run.pick(6, 8)).len() + 200;
+        for (k, chunk) in corpora.chunks(16).enumerate() {
+            if !run.unit((base + k) as u64) {
+                continue;
+            }
+            for lines in chunk {
+                for max_size in [Some(1), Some(2)] {
+                    for (use_characters, char_grams) in [MODES[0], MODES[1]] {
+                        check_case(&mut run, &mut ctx, &Case { files: vec![lines.clone()], max_size, max_sequences: None, use_characters, char_grams, threads: vec![0, 1, 2], term: vec![] });
+                    }
+                }
+            }
+        }
+    }
     // format phase (units of 32 lines each)
     {
         let lines: Vec<String> = strings(&FORMAT_ALPHA, run.pick(3, 4)).into_iter().filter(|l| l.chars().any(|c| c != 'a' && c != ' ')).collect();
